@@ -1252,7 +1252,10 @@ pub fn viol(prop: &'static str, sig: String, detail: String) -> Viol {
 /// Run `f`, catching panics; returns Err(panic message+location) on panic.
 pub fn guarded<R>(f: impl FnOnce() -> R) -> std::result::Result<R, String> {
     crate::PANIC_INFO.with(|p| *p.borrow_mut() = None);
-    match catch_unwind(AssertUnwindSafe(f)) {
+    crate::IN_GUARD.with(|g| g.set(g.get() + 1));
+    let res = catch_unwind(AssertUnwindSafe(f));
+    crate::IN_GUARD.with(|g| g.set(g.get().saturating_sub(1)));
+    match res {
         Ok(r) => Ok(r),
         Err(_) => {
             let info = crate::PANIC_INFO.with(|p| p.borrow_mut().take()).unwrap_or_else(|| "panic (no info)".to_string());
